@@ -6,6 +6,8 @@ T2 (correspondence, evaluated by vm_compute on the same inputs):
   select   : ResolveLinks._find_matching_links on generated single-inheritance forests (depth<=3), link sets <= 3
   validate : LinkValidator.validate_links on sets of <= 3 links over 3 classes
   e2e      : mloda.prepare with a consumer of two concrete classes; links recorded by the planner vs the model
+  backstop / attach / run_all (harness/c18_attach.py, Model/LinkAttach.v): links attached to features, the resolve-time
+             check ResolveLinkValidator.validate_no_conflicting_join_types, where prepare refuses a contradictory set
 """
 from __future__ import annotations
 
@@ -450,11 +452,18 @@ def run(rep: vlib.Reporter, tier: str, seed: int) -> None:
     for c in [c for c in ec if c["exc"]][:3]:
         rep.notes.append(f"e2e prepare raised: {c['exc']}")
 
+    # links attached to features + the resolve-time back-stop (Model/LinkAttach.v)
+    from harness import c18_attach
+    found = c18_attach.run(rep, tier, rng, fs) or found
+
     rep.add("rule", "index tuples exhaustive up to length 3 over 3 letters; selection: PRNG cases over all single-inheritance "
                     "forests with <=5 classes, depth<=3, width<=2, <=3 links biased towards ancestors of the pair; validation: "
                     "all singletons + pairs/triples over 90 candidate links on 3 classes; e2e: prepare() of a consumer of two "
-                    "classes, links recorded in the planner's link trekker. non-trivial = non-empty selection / >1 link / "
-                    "non-empty tuples")
+                    "classes, links recorded in the planner's link trekker; back-stop: every insertion order of <=3 keys; "
+                    "attach: every ordered pair of different links between two requested classes x 3 ways of arrival "
+                    "(exact and polymorphic) + PRNG requests (3 shapes, <=3 links, API / attached, <=5 classes, 2 frameworks). "
+                    "non-trivial = non-empty selection / >1 link / non-empty tuples / a request with an attached link where a "
+                    "link is used or prepare raises")
     for c in (ic[77], sel[0], vc[100], ec[0]):
         rep.sample(c)
     if not pr.ok and not found:
@@ -474,6 +483,9 @@ def replay(path: str) -> int:
         rl = [real_link(classes, l) for l in r["links"]]
         res = ResolveLinks(None, set(rl))._find_matching_links(classes[r["lf"]], classes[r["rf"]])  # type: ignore[arg-type]
         print("now:", sorted(rl.index(x) for x in res), "recorded:", r["obs"])
+    if r.get("kind") in ("attach", "backstop"):
+        from harness import c18_attach
+        c18_attach.replay(r)
     if r.get("kind") == "index":
         from mloda.user import Index
         print("now:", Index(tuple(r["a"])).is_a_part_of_(Index(tuple(r["b"]))))
